@@ -39,7 +39,7 @@ def read_rows(run):
     return rows
 
 
-def scenario(spec, prefix, n_events, restart_before, crash_at, torn, wd, buffered=False):
+def scenario(spec, prefix, n_events, restart_before, crash_at, torn, wd, buffered=False, crash2=None):
     """Returns dict(effects=[labels]) in count mode (crash_at None) or dict(violations=[...])."""
     ch = Chooser(prefix)
     run = l1.L1Run(spec, ch, wd, [])
@@ -75,12 +75,33 @@ def scenario(spec, prefix, n_events, restart_before, crash_at, torn, wd, buffere
         except Exception:  # noqa: BLE001
             recorded = None
     n_issued = len(run.issued)
+    effects2 = []
+    tree = None
+    if crash2 is None:
+        from checks import c08_conf
+
+        # what the dead process left behind, not counting temporary files (nobody reads them: checked below)
+        tree = tuple(x for x in c08_conf.tree_digest(run.dir) if not x[0].endswith(".tmp"))
     try:
-        run.restart()
+        # the restart repairs what the crash left behind: it has file-system effects of its own,
+        # and the process can die again in the middle of them (crash2 = (effect index, torn))
+        with faultfs.section(run.dir, crash_at=None if crash2 is None else crash2[0],
+                             torn=None if crash2 is None else crash2[1], buffered=buffered) as S2:
+            try:
+                run.restart()
+                crashed2 = False
+            except faultfs.SimulatedCrash:
+                crashed2 = True
+        effects2 = list(S2.log)
+        if S2.tmp_reads:
+            tree = None
+        if crashed2:
+            n_issued = len(run.issued)
+            run.restart()
     except l1.Violation as v:
-        return dict(violations=[("restart-refused", v.msg)], label=label)
+        return dict(violations=[("restart-refused", v.msg)], label=label, effects2=effects2, tree=tree)
     except BaseException as e:  # noqa: BLE001
-        return dict(violations=[("restart-raises", f"{type(e).__name__}: {e}")], label=label)
+        return dict(violations=[("restart-raises", f"{type(e).__name__}: {e}")], label=label, effects2=effects2, tree=tree)
     st = run.state
     # every active path is present with non-zero weight in its slot and all its files exist
     for slot, traj in enumerate(st._trajs[:-1]):
@@ -97,7 +118,7 @@ def scenario(spec, prefix, n_events, restart_before, crash_at, torn, wd, buffere
     if recorded is None:
         out.append(("restart-silently-from-step-0", "restart.toml lacks a readable [current] section, the program silently starts from step 0"))
     if out:
-        return dict(violations=out, label=label)
+        return dict(violations=out, label=label, effects2=effects2, tree=tree)
     # continue: complete the in-flight jobs, then replace every live path once more
     n = st.n
     todo = list(range(n - 1))
@@ -117,13 +138,13 @@ def scenario(spec, prefix, n_events, restart_before, crash_at, torn, wd, buffere
             ch.forced["pick.choice"] = [diag_pick]
             run.event()
     except l1.Violation as v:
-        return dict(violations=[("continue:" + v.sig, v.msg)], label=label)
+        return dict(violations=[("continue:" + v.sig, v.msg)], label=label, effects2=effects2, tree=tree)
     except Exception as e:  # noqa: BLE001
         import traceback
 
         tb = traceback.extract_tb(e.__traceback__)
         where = next((f"{os.path.basename(fr.filename)}:{fr.name}" for fr in reversed(tb) if "/infretis/" in fr.filename), "?")
-        return dict(violations=[("continue-raises", f"{type(e).__name__}: {e} in {where}")], label=label)
+        return dict(violations=[("continue-raises", f"{type(e).__name__}: {e} in {where}")], label=label, effects2=effects2, tree=tree)
     finally:
         ch.forced = []
     rows = read_rows(run)
@@ -138,7 +159,7 @@ def scenario(spec, prefix, n_events, restart_before, crash_at, torn, wd, buffere
     missing = [p for p in replaced if p not in rows]
     if missing:
         out.append(("replaced-path-without-row", f"replaced paths {missing} have no data row"))
-    return dict(violations=out, label=label)
+    return dict(violations=out, label=label, effects2=effects2, tree=tree)
 
 
 def window(kind, rel, site):
@@ -190,6 +211,7 @@ def _job(args):
         hs = histories(spec, n_events, restart_before, wd)
         hs = hs[hist_slice[0]::hist_slice[1]]
         for prefix in hs:
+          trees_done = set()
           for buffered in (False, True):
             base = scenario(spec, prefix, n_events, restart_before, None, None, wd, buffered=buffered)
             eff = base["effects"]
@@ -217,6 +239,22 @@ def _job(args):
                         sig = f"{clause}@{window(kind, rel, site)}"
                         viols.setdefault(sig, (f"{'buffered' if buffered else 'unbuffered'} writes, crash after effect #{k} {(kind, rel, site)} torn={torn}: {msg}",
                                                dict(args=list(args[:5]), prefix=base["choices"], k=k, torn=torn, buffered=buffered)))
+                    # the restart had effects of its own (it repaired something): die in the middle of each
+                    # (once per distinct tree the first crash left behind: the dead process has no other state)
+                    tkey = (buffered, r.get("tree"))
+                    if r.get("tree") is not None and tkey in trees_done:
+                        continue
+                    trees_done.add(tkey)
+                    for k2, (kind2, rel2, site2) in enumerate(r.get("effects2") or []):
+                        for torn2 in ([None] + list(torn_set) if kind2 in ("write", "flush") else [None]):
+                            n += 1
+                            r2 = scenario(spec, base["choices"], n_events, restart_before, k, torn, wd, buffered=buffered, crash2=(k2, torn2))
+                            classes.add(("recovery", kind2, rel2, site2, torn2 is not None, bool(r2["violations"]), buffered))
+                            for clause, msg in r2["violations"]:
+                                sig = f"{clause}@recovery:{window(kind2, rel2, site2)}"
+                                viols.setdefault(sig, (f"{'buffered' if buffered else 'unbuffered'} writes, crash after effect #{k} {(kind, rel, site)} torn={torn}, "
+                                                       f"then a second crash during the restart after its effect #{k2} {(kind2, rel2, site2)} torn={torn2}: {msg}",
+                                                       dict(args=list(args[:5]), prefix=base["choices"], k=k, torn=torn, buffered=buffered, crash2=[k2, torn2])))
     finally:
         os.chdir(old)
         l1.deactivate()
@@ -312,7 +350,7 @@ def run(ctx):
     ctx.set("crash_restart_cycles", n)
     ctx.set("scenarios", nh)
     ctx.set("rule", "scenario = history of <= 3 steps (outcomes and completion orders exhaustive, picks with one deviation, deduplicated by completed (ensemble, outcome) sequence) "
-                    "x crash after every counted file-system effect of the last step x torn prefixes of writes; "
+                    "x crash after every counted file-system effect of the last step x torn prefixes of writes x (where the restart itself writes) a second crash after every effect of the restart; "
                     "distinct = (effect kind, normalised path, call site, torn?, violated?)")
     ctx.sample(dict(effect=["write", "restart.toml", "repex.py:write_toml"], torn="len-1"))
     ctx.sample(dict(effect=["move", "load/<n>/accepted/acc<n>_e<n>.xyz", "formatter.py:_move_path"], torn=None))
@@ -335,6 +373,11 @@ def replay(data):
         buffered = data.get("buffered", False)
         base = scenario(spec, data["prefix"], n_events, restart_before, None, None, wd, buffered=buffered)
         kind, rel, site = base["effects"][data["k"]]
+        if data.get("crash2"):
+            r0 = scenario(spec, data["prefix"], n_events, restart_before, data["k"], data["torn"], wd, buffered=buffered)
+            kind2, rel2, site2 = r0["effects2"][data["crash2"][0]]
+            r = scenario(spec, data["prefix"], n_events, restart_before, data["k"], data["torn"], wd, buffered=buffered, crash2=tuple(data["crash2"]))
+            return [(f"{c}@recovery:{window(kind2, rel2, site2)}", m) for c, m in r["violations"]]
         r = scenario(spec, data["prefix"], n_events, restart_before, data["k"], data["torn"], wd, buffered=buffered)
         return [(f"{c}@{window(kind, rel, site)}", m) for c, m in r["violations"]]
     finally:
